@@ -244,6 +244,20 @@ func (s *Sched) Drain() int {
 	}
 }
 
+// StepCount is the number of grants so far (safe to call from a monitor goroutine).
+func (s *Sched) StepCount() int {
+	s.mu.Lock()
+	defer s.mu.Unlock()
+	return s.Steps
+}
+
+// Last names the thread (or virtual action) that was granted last.
+func (s *Sched) Last() string {
+	s.mu.Lock()
+	defer s.mu.Unlock()
+	return s.last
+}
+
 // Alive lists the registered threads that have not returned yet.
 func (s *Sched) Alive() []string {
 	s.mu.Lock()
